@@ -74,7 +74,7 @@ theorem reconstruct_keeps_every_note (raw : List SNote) (ts : List TSLine) (ks :
     ∧ r.barlines.map (·.1) = barNames (sortSNotes ((List.range raw.length).zip raw)) := by
   unfold reconstruct at h
   simp only [Option.bind_eq_bind, Option.bind_eq_some_iff, Option.pure_def, Option.some.injEq] at h
-  obtain ⟨first, _, _, _, bars, hb, notesFb, hn, _, _, _, _, hr⟩ := h
+  obtain ⟨first, _, _, _, bars, hb, notesFb, hn, _, _, _, _, _, _, hr⟩ := h
   subst hr
   have hidx : notesFb.map (fun y => y.1.1) = (sortSNotes ((List.range raw.length).zip raw)).map (·.1) := by
     apply C08S.mapM_map _ _ _ _ _ _ hn
